@@ -121,3 +121,22 @@ Section CltFacts.
     rewrite !Hones by (cbn; auto). rewrite <- (Hrow pv Hpv) at 3. ring.
   Qed.
 End CltFacts.
+
+Section CltBatchFacts.
+  Variable T : Type.
+  Variables (t0 t1 : T) (tadd tmul : T -> T -> T).
+  Lemma merge_split {A} (p : A -> bool) (f g : A -> T) (l : list A) :
+    merge T (map p l) (map f (filter p l)) (map g (filter (fun r => negb (p r)) l)) =
+    map (fun r => if p r then f r else g r) l.
+  Proof. induction l as [|x l IH]; cbn; [reflexivity|]. destruct (p x); cbn; now rewrite IH. Qed.
+
+  (* the split / merge batch evaluation is row-wise evaluation, for every batch *)
+  Theorem clt_batch_rowwise (c : clt T) (rows : list row) :
+    clt_batch T t0 t1 tadd tmul c rows = map (clt_lik T t0 t1 tadd tmul c) rows.
+  Proof.
+    unfold clt_batch, clt_lik. destruct (forallb (fun b => b) (map (complete_on (cscope c)) rows)) eqn:E.
+    - apply map_ext_in. intros r Hr. rewrite forallb_forall in E.
+      rewrite (E (complete_on (cscope c) r)); [reflexivity | now apply in_map].
+    - apply merge_split.
+  Qed.
+End CltBatchFacts.
